@@ -123,6 +123,13 @@ pub fn preseal_melmint<C: ContentAddrStore>(state: UnsealedState<C>) -> Unsealed
 /// a key maps to the canonical pool's storage slot while swapping the meaning of left and right.
 fn canonical_pool_key(data: &[u8]) -> Option<PoolKey> {
     let key = PoolKey::from_bytes(data)?;
+    // NewCustom is the placeholder an output carries until its coin is created (the coin itself is
+    // denominated in the creating transaction's hash), so it is never the denomination of a coin:
+    // a pool with such a side (empty `data` parses as NewCustom/MEL) would take coins of any newly
+    // created token as if they were one denomination
+    if key.left() == Denom::NewCustom || key.right() == Denom::NewCustom {
+        return None;
+    }
     (key.left().to_bytes() < key.right().to_bytes() && key.to_bytes() == data).then_some(key)
 }
 
